@@ -57,6 +57,60 @@ def stmt_of(n):
     return n
 
 
+def size_aliases(scope):
+    """local names that are bound exactly once in `scope` to a size of an array: n, d = X.shape / n = len(X) / n = X.shape[0]"""
+    import copy
+    binds = {}
+    for s_ in ast.walk(scope):
+        if isinstance(s_, ast.Assign) and len(s_.targets) == 1:
+            t, v = s_.targets[0], s_.value
+            if isinstance(t, ast.Tuple) and isinstance(v, ast.Attribute) and v.attr == "shape":
+                for i, e in enumerate(t.elts):
+                    if isinstance(e, ast.Name):
+                        binds.setdefault(e.id, []).append(f"{norm_src(v.value)}.shape[{i}]")
+                    elif isinstance(e, (ast.Attribute, ast.Subscript)):
+                        binds.setdefault(norm_src(e), []).append(f"{norm_src(v.value)}.shape[{i}]")
+            elif isinstance(t, ast.Name):
+                if isinstance(v, ast.Call) and norm_src(v.func) == "len" and len(v.args) == 1 and isinstance(v.args[0], ast.Name):
+                    binds.setdefault(t.id, []).append(f"{v.args[0].id}.shape[0]")
+                elif isinstance(v, ast.Subscript) and isinstance(v.value, ast.Attribute) and v.value.attr == "shape" and isinstance(v.slice, ast.Constant):
+                    binds.setdefault(t.id, []).append(norm_src(v))
+                else:
+                    binds.setdefault(t.id, []).append(None)
+        elif isinstance(s_, (ast.AugAssign, ast.For)):
+            t = s_.target
+            for n in ast.walk(t):
+                if isinstance(n, ast.Name):
+                    binds.setdefault(n.id, []).append(None)
+    return {k: v[0] for k, v in binds.items() if len(v) == 1 and v[0] is not None}
+
+
+def normalise_sizes(node, aliases):
+    """rewrite size aliases and len(<name>) to the form <name>.shape[i] so that equal sizes compare equal"""
+    import copy
+
+    class R(ast.NodeTransformer):
+        def visit_Name(self, n):
+            if isinstance(n.ctx, ast.Load) and n.id in aliases:
+                return ast.parse(aliases[n.id], mode="eval").body
+            return n
+
+        def visit_Attribute(self, n):
+            k = norm_src(n)
+            if isinstance(n.ctx, ast.Load) and k in aliases:
+                return ast.parse(aliases[k], mode="eval").body
+            return self.generic_visit(n)
+
+        def visit_Call(self, n):
+            n = self.generic_visit(n)
+            if isinstance(n.func, ast.Name) and n.func.id == "len" and len(n.args) == 1 and isinstance(n.args[0], ast.Name) and not n.keywords:
+                return ast.parse(f"{n.args[0].id}.shape[0]", mode="eval").body
+            return n
+    if isinstance(node, str):
+        node = ast.parse(node, mode="eval").body
+    return ast.fix_missing_locations(R().visit(copy.deepcopy(node)))
+
+
 def expect_assign(ctx, rule, unit, qn, scope, target_src, expected, site, why, ok_note="", all_sites=False):
     """Judge `target = value` statements of `scope` (a function / loop node): the value must be canonically equal to one of
     `expected` (source texts). No assignment to that target -> unrecognised (cannot judge); a different value -> violation.
@@ -66,7 +120,8 @@ def expect_assign(ctx, rule, unit, qn, scope, target_src, expected, site, why, o
     if not cands:
         ctx.unrecognised(rule, site, f"no assignment to {target_src}")
         return None
-    good = [c for c in cands if isinstance(c, ast.Assign) and any(canon_equal(c.value, e) for e in expected)]
+    al = size_aliases(scope) if isinstance(scope, (ast.FunctionDef, ast.AsyncFunctionDef)) else {}
+    good = [c for c in cands if isinstance(c, ast.Assign) and any(canon_equal(c.value, e) or canon_equal(normalise_sizes(c.value, al), normalise_sizes(e, al)) for e in expected)]
     if good and (not all_sites or len(good) == len(cands)):
         ctx.ok(rule, site, ok_note or f"{target_src} = {norm_src(good[0].value)[:80]}")
         return good[0]
